@@ -80,7 +80,7 @@ def case_strategy(profile):
         # the two endpoints may advertise different idle timeouts: the smaller one is in force once both are known
         extra = {"idle_timeout": st.sampled_from([60.0, 60.0, 4.0, 2.0]), "s_idle_timeout": st.sampled_from([None, None, 2.0, 5.0, 60.0]), "c_idle_timeout": st.sampled_from([None, None, None, 3.0, 60.0])}
     elif profile.get("cfg_extra_fn") == "c13":
-        extra = {"leaf": st.sampled_from(["ed25519", "p256", "rsa", "chain2", "chain3", "chain3"]), "retry": st.sampled_from([False, False, True]), "mute_client_after": st.sampled_from([None, None, 1, 1, 2, 3]), "resume": st.sampled_from([False, False, True])}
+        extra = {"leaf": st.sampled_from(["ed25519", "p256", "rsa", "chain2", "chain3", "chain3", "chain-long", "chain-long"]), "retry": st.sampled_from([False, False, True]), "mute_client_after": st.sampled_from([None, None, 1, 1, 2, 3]), "resume": st.sampled_from([False, False, True])}
     elif profile.get("cfg_extra_fn") == "c08":
         # the client may have to start over: Retry, or Version Negotiation with a server that does not speak the version it started with
         extra = {"retry": st.sampled_from([False, False, True]), "server_versions": st.sampled_from([[V1, V2], [V2, V1], [V1], [V2]]), "resume": st.sampled_from([False, False, True])}
@@ -734,7 +734,7 @@ PROFILES = {
     "C01-norebind": {"adv_end": 3.0, "fair": 20.0, "rebind": False, "dup": True, "resume": True, "early": True},
     "C09": {"c_keylog": True, "adv_end": 3.0, "fair": 12.0, "rebind": False, "dup": True, "close": True, "cfg_extra_fn": "c09"},
     "C12": {"c_keylog": True, "adv_end": 3.0, "fair": 5.0, "rebind": False, "dup": True, "key_update": False, "change_cid": True, "jitter0": True},
-    "C13": {"c_keylog": True, "adv_end": 3.0, "fair": 6.0, "rebind": True, "dup": True, "cfg_extra_fn": "c13", "mds": [1200, 1280, 1350, 1452], "early": True},
+    "C13": {"c_keylog": True, "adv_end": 3.0, "fair": 6.0, "rebind": True, "dup": True, "cfg_extra_fn": "c13", "mds": [1200, 1280, 1350, 1452, 1472, 1500], "early": True},
     "C02": {"c_keylog": True, "adv_end": 2.0, "fair": 4.0, "rebind": True, "dup": True, "cfg_extra_fn": "c08", "early": True, "max_ops": 6, "max_fates": 60},
     "C08": {"c_keylog": True, "adv_end": 3.0, "fair": 8.0, "rebind": False, "dup": True, "big": True, "key_update": False, "cfg_extra_fn": "c08", "early": True},
 }
@@ -778,7 +778,7 @@ def sim_task(ctx, prop, profile_name, examples, shard):
     from hypothesis import strategies as st
     from .harness import run_hypothesis
 
-    strat = rebind_strategy() if profile_name == "C01-rebind-validation" else migration_strategy() if profile_name == "C13-migration" else case_strategy(PROFILES[profile_name])
+    strat = rebind_strategy() if profile_name == "C01-rebind-validation" else migration_strategy() if profile_name == "C13-migration" else slow_handshake_strategy() if profile_name == "C13-slow-handshake" else case_strategy(PROFILES[profile_name])
 
     def body(ctx, case):
         sim = run_case(ctx, prop, case)
@@ -852,6 +852,23 @@ def migration_strategy():
     ).map(build)
 
 
+def slow_handshake_strategy():
+    """a handshake with a long certificate chain over a slow path: the ClientHello and its PTO retransmissions reach the server before any answer gets
+    back, so the server keeps running into the anti-amplification limit (every datagram it receives adds three times its size to the budget)"""
+    from hypothesis import strategies as st
+
+    delay = st.sampled_from([0.005, 0.02, 0.05, 0.1, 0.25])
+    fate = st.tuples(st.sampled_from(["deliver"] * 9 + ["drop"]), delay, delay).map(list)
+
+    def build(t):
+        leaf, mds, cc, back, fates, early = t
+        script = [{"t": 0.0, "who": "c", "op": "write", "stream": "bidi", "n": early, "fin": True, "early": True}] if early else []
+        cfg = {"cc": cc, "client_version": V1, "server_versions": [V1, V2], "max_data": 1048576, "max_stream_data": 1048576, "mds": mds, "s2c_extra_delay": back, "leaf": leaf, "retry": False, "mute_client_after": None}
+        return {"cfg": cfg, "script": script, "fates": fates, "jitter": [0.0], "adv_end": 3.0, "fair": 6.0}
+
+    return st.tuples(st.sampled_from(["chain-long", "chain-long", "chain3", "rsa"]), st.sampled_from([1350, 1452, 1472, 1500]), st.sampled_from(["reno", "cubic"]), st.sampled_from([0.3, 0.5, 0.7, 1.0, 1.5]), st.lists(fate, min_size=20, max_size=60), st.sampled_from([0, 0, 100, 3000])).map(build)
+
+
 def plan_for(prop, tier, seed):
     q = tier == "quick"
     t = []
@@ -867,6 +884,8 @@ def plan_for(prop, tier, seed):
     if prop == "C13":
         for s in range(2 if q else 4):
             t.append(("sim-c13-migration-%d" % s, {"fn": "sim", "profile": "C13-migration", "examples": 60 if q else 3000, "shard": s}))
+        for s in range(2):
+            t.append(("sim-c13-slow-handshake-%d" % s, {"fn": "sim", "profile": "C13-slow-handshake", "examples": 60 if q else 3000, "shard": s}))
     if prop == "C02":
         for s in range(4):
             t.append(("sim-emit-%d" % s, {"fn": "sim", "profile": "C02", "examples": 80 if q else 4000, "shard": s}))
